@@ -14,9 +14,13 @@ func mf(i int, name string, t Type) Field {
 
 func defVariants() map[string]func(n string) *Def {
 	return map[string]func(n string) *Def{
-		"struct":          func(n string) *Def { return &Def{Kind: "struct", Name: n, Fields: []Field{f("alpha", Simple("int32"))}} },
-		"struct-empty":    func(n string) *Def { return &Def{Kind: "struct", Name: n} },
-		"struct-readonly": func(n string) *Def { return &Def{Kind: "struct", Name: n, ReadOnly: true, Fields: []Field{f("alpha", Simple("string"))}} },
+		"struct": func(n string) *Def {
+			return &Def{Kind: "struct", Name: n, Fields: []Field{f("alpha", Simple("int32"))}}
+		},
+		"struct-empty": func(n string) *Def { return &Def{Kind: "struct", Name: n} },
+		"struct-readonly": func(n string) *Def {
+			return &Def{Kind: "struct", Name: n, ReadOnly: true, Fields: []Field{f("alpha", Simple("string"))}}
+		},
 		"struct-opcode": func(n string) *Def {
 			return &Def{Kind: "struct", Name: n, OpCode: &OpCode{Int: 0x1234, IntLit: "0x1234"}, Fields: []Field{f("alpha", Simple("guid"))}}
 		},
@@ -35,8 +39,12 @@ func defVariants() map[string]func(n string) *Def {
 		"message-deprecated": func(n string) *Def {
 			return &Def{Kind: "message", Name: n, Fields: []Field{{Name: "alpha", Type: Simple("int32"), Index: 1, Deprecated: true, DepMsg: "old"}, mf(2, "beta", Simple("int64"))}}
 		},
-		"enum":       func(n string) *Def { return &Def{Kind: "enum", Name: n, Options: []Option{{Name: "OptA", Lit: "1"}, {Name: "OptB", Lit: "2"}}} },
-		"enum-uint8": func(n string) *Def { return &Def{Kind: "enum", Name: n, Base: "uint8", Options: []Option{{Name: "OptA", Lit: "200"}, {Name: "OptB", Lit: "255"}}} },
+		"enum": func(n string) *Def {
+			return &Def{Kind: "enum", Name: n, Options: []Option{{Name: "OptA", Lit: "1"}, {Name: "OptB", Lit: "2"}}}
+		},
+		"enum-uint8": func(n string) *Def {
+			return &Def{Kind: "enum", Name: n, Base: "uint8", Options: []Option{{Name: "OptA", Lit: "200"}, {Name: "OptB", Lit: "255"}}}
+		},
 		"enum-int64": func(n string) *Def {
 			return &Def{Kind: "enum", Name: n, Base: "int64", Options: []Option{{Name: "OptA", Lit: "-9223372036854775808"}, {Name: "OptB", Lit: "9223372036854775807"}}}
 		},
@@ -110,14 +118,14 @@ func ConstructFamily() []Named {
 		add("map-value/"+p, ms(mf(1, "alpha", MapOf("string", Simple(p)))))
 	}
 	shapes := map[string]func(Type) Type{
-		"T[][]":              func(t Type) Type { return ArrayOf(ArrayOf(t)) },
-		"T[][][]":            func(t Type) Type { return ArrayOf(ArrayOf(ArrayOf(t))) },
-		"array[array[T]]":    func(t Type) Type { return LongArrayOf(LongArrayOf(t)) },
-		"array[T][]":         func(t Type) Type { return ArrayOf(LongArrayOf(t)) },
-		"array[T[]]":         func(t Type) Type { return LongArrayOf(ArrayOf(t)) },
-		"map[string,T[]]":    func(t Type) Type { return MapOf("string", ArrayOf(t)) },
-		"map[string,T][]":    func(t Type) Type { return ArrayOf(MapOf("string", t)) },
-		"array[map[guid,T]]": func(t Type) Type { return LongArrayOf(MapOf("guid", t)) },
+		"T[][]":                    func(t Type) Type { return ArrayOf(ArrayOf(t)) },
+		"T[][][]":                  func(t Type) Type { return ArrayOf(ArrayOf(ArrayOf(t))) },
+		"array[array[T]]":          func(t Type) Type { return LongArrayOf(LongArrayOf(t)) },
+		"array[T][]":               func(t Type) Type { return ArrayOf(LongArrayOf(t)) },
+		"array[T[]]":               func(t Type) Type { return LongArrayOf(ArrayOf(t)) },
+		"map[string,T[]]":          func(t Type) Type { return MapOf("string", ArrayOf(t)) },
+		"map[string,T][]":          func(t Type) Type { return ArrayOf(MapOf("string", t)) },
+		"array[map[guid,T]]":       func(t Type) Type { return LongArrayOf(MapOf("guid", t)) },
 		"map[int32,map[string,T]]": func(t Type) Type { return MapOf("int32", MapOf("string", t)) },
 		"map[string,array[T][]]":   func(t Type) Type { return MapOf("string", ArrayOf(LongArrayOf(t))) },
 	}
@@ -229,11 +237,11 @@ func ExtremesFamily() []Named {
 
 	s = &Schema{}
 	s.Defs = append(s.Defs, &Def{Kind: "struct", Name: "Ds0", Fields: []Field{f("v", Simple("int32"))}}, &Def{Kind: "message", Name: "Dm0", Fields: []Field{mf(1, "v", Simple("int32"))}})
-	for i := 1; i <= 8; i++ {
+	for i := 1; i <= 12; i++ {
 		s.Defs = append(s.Defs, &Def{Kind: "struct", Name: fmt.Sprintf("Ds%d", i), Fields: []Field{f("inner", Simple(fmt.Sprintf("Ds%d", i-1))), f("after", Simple("uint16"))}})
 		s.Defs = append(s.Defs, &Def{Kind: "message", Name: fmt.Sprintf("Dm%d", i), Fields: []Field{mf(1, "inner", Simple(fmt.Sprintf("Dm%d", i-1))), mf(2, "after", Simple("uint16"))}})
 	}
-	s.Defs = append(s.Defs, &Def{Kind: "struct", Name: "DeepMix", Fields: []Field{f("s", Simple("Ds8")), f("m", Simple("Dm8")), f("ms", ArrayOf(Simple("Dm8"))), f("tail", Simple("int32"))}})
+	s.Defs = append(s.Defs, &Def{Kind: "struct", Name: "DeepMix", Fields: []Field{f("s", Simple("Ds12")), f("m", Simple("Dm12")), f("ms", ArrayOf(Simple("Dm12"))), f("ss", ArrayOf(Simple("Ds12"))), f("sm", MapOf("uint8", Simple("Ds11"))), f("tail", Simple("int32"))}})
 	out = append(out, Named{"extremes/deep", s})
 
 	// inline union members used as field types elsewhere, nested in each other by value
@@ -246,7 +254,10 @@ func ExtremesFamily() []Named {
 			{Index: 3, Def: &Def{Kind: "struct", Name: "NestC", Fields: []Field{f("p", Simple("Point")), f("id", Simple("guid"))}}},
 			{Index: 4, Def: &Def{Kind: "message", Name: "NestM", Fields: []Field{mf(1, "a", Simple("NestA")), mf(2, "more", ArrayOf(Simple("NestB")))}}}}},
 		&Def{Kind: "message", Name: "Bag", Fields: []Field{mf(1, "as", MapOf("string", ArrayOf(Simple("NestA")))), mf(2, "m", Simple("NestM"))}},
-		&Def{Kind: "struct", Name: "UsesMembers", Fields: []Field{f("a", Simple("NestA")), f("cs", ArrayOf(Simple("NestC"))), f("tail", Simple("int32"))}})
+		&Def{Kind: "struct", Name: "UsesMembers", Fields: []Field{f("a", Simple("NestA")), f("cs", ArrayOf(Simple("NestC"))), f("tail", Simple("int32"))}},
+		&Def{Kind: "struct", Name: "UsesMsgMember", Fields: []Field{f("m", Simple("NestM")), f("tail", Simple("int32"))}},
+		&Def{Kind: "struct", Name: "MsgMemberArr", Fields: []Field{f("ms", ArrayOf(Simple("NestM"))), f("tail", Simple("uint16"))}},
+		&Def{Kind: "message", Name: "MsgMemberOpt", Fields: []Field{mf(1, "m", Simple("NestM")), mf(2, "tail", Simple("int32"))}})
 	out = append(out, Named{"extremes/member-types-used-elsewhere", s})
 
 	// structs whose wire size is not a function of their decoded content alone: they hold a
